@@ -128,6 +128,8 @@ func runC18(r *R) {
 	var unauthOff, reauthOff int64 = -1, -1 // UNAUTHENTICATE received; LOGIN received after it
 	var utf8Off, utf8SentOff int64 = -1, -1 // UTF8=ACCEPT enabled (client stream offset); its ENABLED response sent (server stream offset)
 	var enabledSentOff int64 = -1           // offset in the server->client stream after the ENABLED response
+	// the same two offsets for the first ENABLE after an UNAUTHENTICATE (which turns everything off again)
+	var enabledOff2, enabledSentOff2 int64 = -1, -1
 	var srvPipe int
 	r.Sim(cfg, func() {
 		r.Net.KeepLog = true
@@ -206,7 +208,11 @@ func runC18(r *R) {
 						if ((up == "UTF8=ACCEPT" && caps.utf8) || (up == "IMAP4REV2" && caps.rev2)) && !srvEnabled[up] {
 							srvEnabled[up] = true
 							en = append(en, up)
-							if enabledOff < 0 {
+							if unauthOff >= 0 {
+								if enabledOff2 < 0 {
+									enabledOff2 = int64(len(srv.all) - len(srv.buf))
+								}
+							} else if enabledOff < 0 {
 								enabledOff = int64(len(srv.all) - len(srv.buf))
 							}
 							if up == "UTF8=ACCEPT" && utf8Off < 0 {
@@ -215,7 +221,11 @@ func runC18(r *R) {
 						}
 					}
 					srv.send("* ENABLED "+strings.Join(en, " "), c.Tag+" OK enabled")
-					if len(en) > 0 && enabledSentOff < 0 {
+					if len(en) > 0 && unauthOff >= 0 {
+						if enabledSentOff2 < 0 {
+							enabledSentOff2 = int64(srv.sent.Len())
+						}
+					} else if len(en) > 0 && enabledSentOff < 0 {
 						enabledSentOff = int64(srv.sent.Len())
 					}
 					if utf8Off >= 0 && utf8SentOff < 0 {
@@ -284,7 +294,7 @@ func runC18(r *R) {
 		return
 	}
 	r.CheckLiveness(false)
-	c18Judge(r, cli, srv, pre, post, authOff, enabledOff, enabledSentOff, srvPipe, unauthOff, reauthOff, utf8Off, utf8SentOff)
+	c18Judge(r, cli, srv, pre, post, authOff, enabledOff, enabledSentOff, srvPipe, unauthOff, reauthOff, utf8Off, utf8SentOff, enabledOff2, enabledSentOff2)
 	if len(r.viol) > 0 {
 		r.Tracef("pre-auth caps: %s | post-auth caps: %s | greeting caps=%v enable=%d", pre.line(), post.line(), greetCaps, enableWhat)
 		r.Tracef("client->server: %q", clipStr(string(cli.Written()), 2500))
@@ -292,7 +302,7 @@ func runC18(r *R) {
 	}
 }
 
-func c18Judge(r *R, cli *simnet.Conn, srv *scriptSrv, pre, post c18caps, authOff, enabledOff, enabledSentOff int64, srvPipe int, unauthOff, reauthOff, utf8Off, utf8SentOff int64) {
+func c18Judge(r *R, cli *simnet.Conn, srv *scriptSrv, pre, post c18caps, authOff, enabledOff, enabledSentOff int64, srvPipe int, unauthOff, reauthOff, utf8Off, utf8SentOff, enabledOff2, enabledSentOff2 int64) {
 	stream := cli.Written()
 	// literal decisions in stream order tell the splitter which synchronising literals were followed by a payload
 	var syncEvents []srvLitEvent
@@ -374,11 +384,12 @@ func c18Judge(r *R, cli *simnet.Conn, srv *scriptSrv, pre, post c18caps, authOff
 		}
 		// quoted strings: 8-bit only when permitted; CR/LF/NUL never
 		if ln.Complete {
-			en := enabledOff
+			en, enSent := enabledOff, enabledSentOff
 			if unauthOff >= 0 && int64(ln.Start) >= unauthOff {
-				en = -1 // RFC 8437: UNAUTHENTICATE turns off everything that ENABLE had turned on
+				// RFC 8437: UNAUTHENTICATE turns off everything that ENABLE had turned on; only an ENABLE after it counts
+				en, enSent = enabledOff2, enabledSentOff2
 			}
-			c18Quoted(r, ln, caps, en, enabledSentOff, writtenAt, deliveredAt)
+			c18Quoted(r, ln, caps, en, enSent, writtenAt, deliveredAt)
 		}
 	}
 	// synchronisation: payload only after the continuation request was delivered; none after a refusal
